@@ -157,7 +157,8 @@ def handle (op : String) (args : List String) : Option Reply :=
   -- copies are the partition copied (intervals and complement witness)
   | "clone", [p] => do let p ← rCP p; okProved (pCP p)
   | "clone_from", [_, p] => do let p ← rCP p; okProved (pCP p)
-  -- `Iterator::nth(j)` after k calls of `next`: element k+j of the enumeration
+  -- `Iterator::nth(j)` after k calls of `next`: element k+j of the enumeration (Props/C11 `class_ids_get`, `picks_get`:
+  -- the list element at index i is what `next` computes with its counter at i)
   | "class_ids_nth", [p, k, j] => do
       let p ← rCP p; let k ← rNat k; let j ← rNat j
       okProved (match p.classIds[k + j]? with | some c => pCid c | none => "none")
